@@ -52,6 +52,19 @@ func (s *c02Session) builder(m c02Member, ctx *big.Int) (ProofBuilder, error) {
 	case "issue+blind":
 		return NewCredentialBuilder(kp.Pk, ctx, s.secret, bi(777), nil, []int{1})
 	}
+	if m.kind == "disc+zero" {
+		// harness-side prover with the secret-key randomiser fixed to 0 (see C08)
+		cred, err := issueDirect(kp, s.secret, []*big.Int{bi(11), bi(5000), bi(33)})
+		if err != nil {
+			return nil, err
+		}
+		ab, err := newAdvBuilder(kp, cred, []int{0, 2, 3}, map[int]*big.Int{1: cred.Attributes[1]})
+		if err != nil {
+			return nil, err
+		}
+		ab.fixedSkR = bi(0)
+		return ab, nil
+	}
 	nonrev := m.kind == "disc+nonrev" || m.kind == "disc+nonrev+range"
 	withRange := m.kind == "disc+range" || m.kind == "disc+nonrev+range"
 	attrs := []*big.Int{bi(11), bi(5000), bi(33)}
